@@ -1452,7 +1452,9 @@ class SMTFormula(Formula):
             f: pickle.dumps(v) for f, v in self.__dict__.items() if f != "formula"
         }
         # result["formula"] = self.formula.sexpr().encode("utf-8")
-        result["formula"] = smt_expr_to_str(self.formula).encode("utf-8")
+        result["formula"] = smt_expr_to_str(
+            self.formula, smtlib_strings=True
+        ).encode("utf-8")
         return result
 
     def __setstate__(self, state: Dict[str, bytes]) -> None:
